@@ -270,7 +270,19 @@ def _run_sk(ctx, spec, rng):
     k = 1 + (r // 5) % m
     big = da * db
     kind = r % 4
-    if kind == 0:
+    if r % 8 == 7:
+        # low-rank PSD operator dominated by a (locally rotated) maximally entangled vector, local dimensions >= 3, k >= 2
+        da, db = [(3, 3), (3, 4), (4, 4), (4, 3)][(r // 8) % 4]
+        m, big = min(da, db), da * db
+        k = 2 + (r // 32) % (m - 1)
+        omega = np.zeros((da, db))
+        omega[np.arange(m), np.arange(m)] = 1 / np.sqrt(m)
+        uu = np.kron(gen.haar(rng, da), gen.haar(rng, db))
+        v0 = uu @ omega.reshape(-1)
+        x = np.outer(v0, v0.conj()) + 0.1 * gen.psd(rng, big, int(rng.integers(1, 3)), True) / big
+        x = ref.herm(x)
+        kind = 4
+    elif kind == 0:
         x = gen.psd(rng, big, int(rng.integers(2, big + 1)), bool(r % 2))
     elif kind == 1:
         x = gen.hermitian(rng, big, bool(r % 2))
